@@ -55,18 +55,22 @@ Seq0(n) == Strict([k \in 1..n |-> k - 1])                  \* <<0, .., n-1>>
 (* with start = end = 0 and no nodes.  (q,ax,i,s,e): the honest prover's    *)
 (* nodes for [s,e) of row (ax=0) / column (ax=1) i of square q.  cs,ce: the *)
 (* start/end written into the proof.  im: ignore-max flag.  lh: 0 = no leaf *)
-(* hash, p+1 = the hash of leaf p of the same tree is attached.             *)
+(* hash, p+1 = the hash of leaf p of the same tree is attached.  nm: 0 the  *)
+(* prover's nodes, 1 last node dropped, 2 first node appended once more.    *)
 NilPf   == [k |-> "nil", q |-> 1, ax |-> 0, i |-> 0, s |-> 0, e |-> 0, cs |-> 0, ce |-> 0,
-            im |-> TRUE, lh |-> 0]
+            im |-> TRUE, lh |-> 0, nm |-> 0]
 EmptyPf == [NilPf EXCEPT !.k = "empty"]
 RangePf(q, ax, i, s, e) ==
-  [k |-> "pf", q |-> q, ax |-> ax, i |-> i, s |-> s, e |-> e, cs |-> s, ce |-> e, im |-> TRUE, lh |-> 0]
+  [k |-> "pf", q |-> q, ax |-> ax, i |-> i, s |-> s, e |-> e, cs |-> s, ce |-> e, im |-> TRUE, lh |-> 0, nm |-> 0]
 AbsPf(q, i, p) == [RangePf(q, 0, i, p, p + 1) EXCEPT !.lh = p + 1]
 
 ToProof(l, pr) ==
   IF pr.k # "pf" THEN MkProof(0, 0, <<>>, NilH, pr.im)
   ELSE LET lh == AxisLeaves(SQ(l, pr.q), pr.ax, pr.i)
-       IN MkProof(pr.cs, pr.ce, ProveRangeNodes(lh, pr.s, pr.e, TRUE),
+           nodes == ProveRangeNodes(lh, pr.s, pr.e, TRUE)
+       IN MkProof(pr.cs, pr.ce,
+                  IF Len(nodes) = 0 \/ pr.nm = 0 THEN nodes
+                  ELSE IF pr.nm = 1 THEN SubSeq(nodes, 1, Len(nodes) - 1) ELSE Append(nodes, nodes[1]),
                   IF pr.lh = 0 THEN NilH ELSE lh[pr.lh], pr.im)
 
 (***************************************************************************)
@@ -355,6 +359,8 @@ PfAtoms(pr) ==
         [lab |-> <<"lh">>,      pf |-> [pr EXCEPT !.lh = IF pr.lh = 0 THEN pr.s + 1 ELSE 0]],
         [lab |-> <<"shift+">>,  pf |-> [pr EXCEPT !.cs = pr.cs + 1, !.ce = pr.ce + 1]],
         [lab |-> <<"widen">>,   pf |-> [pr EXCEPT !.ce = pr.ce + 1]],
+        [lab |-> <<"dropnode">>, pf |-> [pr EXCEPT !.nm = 1]],
+        [lab |-> <<"dupnode">>,  pf |-> [pr EXCEPT !.nm = 2]],
         [lab |-> <<"nil">>,     pf |-> NilPf],
         [lab |-> <<"empty">>,   pf |-> EmptyPf]}
        \cup (IF pr.cs > 0 THEN {[lab |-> <<"shift-">>, pf |-> [pr EXCEPT !.cs = pr.cs - 1, !.ce = pr.ce - 1]]}
